@@ -61,15 +61,28 @@ def compare_arms(ck, rule, name_a, sig_a, name_b, sig_b, ignore=()):
                        % (var, name_a, ", ".join(sorted(only_a)), name_b, ", ".join(sorted(only_b))))
 
 
+def delegates_to(fx, a, b):
+    """a has no VmResult match of its own and hands the result to b (one implementation left after a merge)"""
+    return any(t[1].get("d") == b.path for g in fx.body_group(a) for _, t in g.calls())
+
+
 def sibling_vmresult_mappers(fx, ck, rule="S1.vmresult-mappers"):
-    ck.rule(rule, "run_vm_to_completion and process_vm_result perform the same effects for every VmResult variant", floor=6)
+    ck.rule(rule, "run_vm_to_completion and process_vm_result perform the same effects for every VmResult variant")
     a = fx.one("Interpreter::run_vm_to_completion")
     b = fx.one("Interpreter::process_vm_result")
     sa = arm_signatures(fx, a, VMRESULT)
     sb = arm_signatures(fx, b, VMRESULT)
+    for x, sx, y, sy in ((a, sa, b, sb), (b, sb, a, sa)):
+        if sx is None and sy is not None and delegates_to(fx, x, y):
+            ck.anchor(True, "match on VmResult in the result mapper %s (the other one delegates to it)" % y.path)
+            ck.instance(rule, "%s delegates to %s: one implementation, nothing to disagree" % (x.path.split("::")[-1], y.path.split("::")[-1]), F.short_span(x.span))
+            return
     if not ck.anchor(sa is not None and sb is not None, "match on VmResult in both result mappers"):
         return
+    n0 = ck.rules[rule]["instances"]
     compare_arms(ck, rule, a.path, sa, b.path, sb)
+    if ck.rules[rule]["instances"] - n0 < 6:
+        ck.closed_fail.append("rule %s compared only %d VmResult variants (hand count: 6+)" % (rule, ck.rules[rule]["instances"] - n0))
 
 
 def outcome_class(effects, f, region_calls):
@@ -169,7 +182,9 @@ def run(tier):
     }
     for role, fns in ROLES.items():
         present = [p for p in fns if p in consumers]
-        ck.anchor(len(present) == len(fns), "VmResult consumers of role %s: %s" % (role, fns))
+        # a member that lost its own match because it now hands the result to another member still plays the role
+        deleg = [p for p in fns if p not in consumers and p in fx.fns and any(delegates_to(fx, fx.fns[p], fx.fns[q]) for q in present)]
+        ck.anchor(len(present) + len(deleg) == len(fns), "VmResult consumers of role %s: %s" % (role, fns))
         for p in present[1:]:
             a, b = consumers[present[0]], consumers[p]
             for var in sorted(set(a) | set(b)):
